@@ -302,7 +302,12 @@ impl Prop for C18 {
             }
             "big-files" => {
                 let mut lib = GdsLibrary::new("big");
-                for k in 0..3 + cx.rng.usize(4) {
+                // one file in four is over a mebibyte (readers and writers that work in blocks of up to 1 MiB meet a block boundary)
+                let nstructs = if cx.n % 4 == 1 { 22 + cx.rng.usize(30) } else { 3 + cx.rng.usize(4) };
+                if nstructs > 20 {
+                    cx.count("markup_files_over_a_mebibyte");
+                }
+                for k in 0..nstructs {
                     let mut st = gds21::GdsStruct::new(format!("s{}", k));
                     let len = 20_000 + cx.rng.usize(45_000);
                     let text = String::from_utf8(long_nonascii(&mut cx.rng, len)).unwrap();
